@@ -215,6 +215,16 @@ class Runner(object):
                         m.db_api.create_environment(dict(env))
             finally:
                 m.auth_ctx.set_ctx(None)
+        # extra definition groups: [{'project', 'namespace', 'workflows'}]
+        for g in defs.get('groups') or []:
+            m.auth_ctx.set_ctx(world.user_ctx(g.get('project', 'proj-a')))
+            try:
+                for wf in g.get('workflows') or []:
+                    m.wf_service.create_workflows(
+                        wf, namespace=g.get('namespace', ''),
+                        scope=g.get('scope', 'private'))
+            finally:
+                m.auth_ctx.set_ctx(None)
         for i, st in enumerate(case.get('starts') or []):
             self._spawn_start(i, st)
         self.pending_ops = sorted(
